@@ -198,6 +198,10 @@ namespace cppcms {
 								else if(position_ == boundary_size) {
 									state_ = expecting_one_crlf_or_eof;
 									position_ = 0;
+									// the tail of the content may be still buffered, if it can't be
+									// written to the file the upload is incomplete
+									if(out->pubsync()!=0)
+										return no_room_left;
 									file_->data().seekg(0);
 									files_.push_back(file_);
 									file_.reset(new http::file());
